@@ -166,3 +166,21 @@ Proof.
   split; [|vm_compute; reflexivity].
   intros H. apply elem_of_list_In in H. vm_compute in H. intuition discriminate.
 Qed.
+
+(* =================================================================================================
+   The concurrent prefetcher itself (internal/fetcher/fetcher.go).
+
+   Model/Fetcher.v is a labelled transition system whose labels are the lock-delimited regions and
+   channel operations of Fetch / Get / Stop / Wait / runWorker / set / handleErr.  The theorems below
+   quantify over ALL traces [steps c (init c) tr s]: every interleaving, any number of workers, any
+   channel capacity, any Fetch calls (overlapping key lists, duplicate keys inside a list), any Get
+   calls, Stop and Wait at any point; [c_parent] is the parent state, [c_fail] the key whose read fails.
+   Check/C24F_check.v ties the LTS to the real fetcher.Fetcher on every run (harness/drivers/fetcher). *)
+From HV Require Import Model.Fetcher Proofs.Fetcher_proofs.
+
+(* Every key is requested from the parent at most once, and only keys listed by some Fetch call. *)
+Theorem C24_fetcher_each_key_once : forall c tr s, steps c (Fetcher.init c) tr s ->
+  NoDup (reads s) /\
+  forall k, k ∈ reads s -> exists i t ks, LFetch i t ks ∈ tr /\ k ∈ ks.
+Proof. exact reads_once. Qed.
+Print Assumptions C24_fetcher_each_key_once.
